@@ -274,6 +274,13 @@ class World:
 
     # -- commands (each on a fresh Repository object, like a fresh process)
     async def snapshot(self, user, src_dir, files, backend=None, note=None, record=True, fresh=False, rate_limit=None, same_object=False):
+        try:
+            # (recompiled native chunker only) what lies in memory behind a chunking buffer differs from command to command
+            import _replicat_adapters as _A
+            if hasattr(_A, 'GUARD_LEN'):
+                _A.GUARD = self.rng.randbytes(7)
+        except ImportError:
+            pass
         if same_object and backend is not None and getattr(self, 'long_lived', False):
             # library use: the command that meets the failing backend call is issued on the user's long-lived Repository object,
             # which goes on to serve the later commands of the history (the process did not die: the call returned an error)
@@ -426,7 +433,7 @@ def run_history(seed, scratch: Path, rep: Report, *, nops, weights, checks, conc
     if encrypted is None:
         encrypted = rng.random() < 0.75
     world = World(seed, encrypted, scratch, concurrent=concurrent, delay=delay, nusers=rng.choice([2, 3, 4]),
-                  chunking=rng.choice([(16, 64), (8, 32), (32, 96)]))
+                  chunking=rng.choice([(16, 64), (8, 32), (32, 96), (12, 61), (8, 35)]))
     mode_ = rng.random()
     world.long_lived = mode_ < 0.25
     world.one_object = 0.25 <= mode_ < 0.45
